@@ -80,6 +80,16 @@ STATEMENT_STATUS: Dict[str, str] = {
                            "behaviour after 82c142f / f22e689)",
     "uncompressed_mode_cex": "proved counter-example: the uncompressed-mode extension (outside the property: not "
                              "pass/vertical/horizontal) never completes a row after `width` pixels",
+    "spec_tables_T4": "proved (round 6): the frozen specification tables by themselves - keys 0..63 + 64i <= 2560, "
+                      "prefix-free, Kraft sum 1 - 2^-8, no code under the EOL prefix, shared extended make-up codes, "
+                      "mode codes prefix-free with exactly the extension/EOFB space left",
+    "spec_codes_complete": "proved (round 6): every terminating / make-up length and every |d| <= 3 has a code word",
+    "spec_encodeRun_shape": "proved (round 6) for every run length: k x 2560 + at most one make-up + one terminating",
+    "eofb_ends_decoding": "proved (round 6): rows + EOFB + ANY bits decode to the rows (EndOfBlock / Rows never read)",
+    "image_rt_trailing": "proved (round 6): bytes appended to an encoding with EOFB are ignored",
+    "extension_codes_rejected": "proved (round 6): after any rows an extension code x1..x7 raises InvalidData",
+    "k_not_group4_rejected": "proved (round 6): K = 0, K > 0, K < -1, absent or non-numeric K -> PDFValueError "
+                             "whatever the data and the other entries",
 }
 CLASSIFIERS: Dict[str, Any] = {}
 
@@ -560,6 +570,33 @@ class Batch:
         self.expect.append(("dec", {"K": K, "Columns": cols, "align": align, "blackis1": rev,
                                     "data": data.hex()}, got))
 
+    def add_expect(self, data: bytes, K, cols, align, rev, want: str, what: str, tag: str, route: str = "func",
+                   extra: Optional[Dict[str, Any]] = None) -> None:
+        """Round 6: a stream whose result a theorem predicts (`eofb_ends_decoding`, `extension_codes_rejected`,
+        `k_not_group4_rejected`): the implementation must give `want` (property check with replay) and the
+        model must agree with the implementation (tie)."""
+        ctx = self.ctx
+        got = impl_decode(data, K, cols, align, rev, route)
+        ctx.case(("r6", tag, data, K, cols, align, rev, route), True, branch="gen:" + tag)
+        ctx.branch("r6:%s:%s" % (tag, got[:3] if got.startswith("ok") else got))
+        ctx.branch("route:" + route)
+        inp = {"r6": tag, "data": data.hex(), "K": K, "Columns": cols, "align": align, "blackis1": rev,
+               "route": route, "expect": want, "what": what}
+        inp.update(extra or {})
+        if got != want:
+            if self.reported < 5:
+                self.reported += 1
+                ctx.fail(C.Failure(what, inp, want, got,
+                                   {"kind": "r6", "gen": tag, "route": route, "width": cols, "align": bool(align),
+                                    "blackis1": bool(rev), "exception": got[4:] if got.startswith("EXC:") else ""}))
+            else:
+                ctx.branch("failure-not-reported")
+        if cols is None or isinstance(cols, int):
+            self.lines.append("dec %s %s %s %s %s" % ("n" if K is None else K, "n" if cols is None else cols,
+                                                      "n" if align is None else int(bool(align)),
+                                                      "n" if rev is None else int(bool(rev)), C.hx(data)))
+            self.expect.append(("dec", inp, got))
+
     def add_raw(self, line: str, inp: Any, expected: str) -> None:
         self.lines.append(line)
         self.expect.append((line.split(" ")[0], inp, expected))
@@ -897,6 +934,113 @@ def run_stream_params(ctx: C.Ctx, b: Batch) -> None:
         b.add_raw("sdec %s %s" % (C.hx(raw), obj_tokens(attrs)), {"attrs": obj_tokens(attrs), "raw": raw.hex()}, got)
 
 
+def impl_ext_code(n: int) -> Optional[str]:
+    """Code word of the symbol 'x<n>' in the implementation's MODE trie."""
+    from pdfminer.ccitt import CCITTG4Parser as P
+
+    def walk(t, path):
+        if isinstance(t, list):
+            for i in (0, 1):
+                r = walk(t[i], path + str(i))
+                if r is not None:
+                    return r
+            return None
+        return path if t == "x%d" % n else None
+    return walk(P.MODE, "")
+
+
+def run_round6(ctx: C.Ctx, b: Batch) -> None:
+    """Round 6: specification tables (Lean vs Python twin), EOFB + trailing data, extension codes, K values."""
+    rng = ctx.rng
+    # --- the specification's tables and run-length codes: Lean definitions vs the Python twin
+    wk = sum(2 ** (13 - len(c)) for c in T4_WHITE.values())
+    bk = sum(2 ** (13 - len(c)) for c in T4_BLACK.values())
+    modes = [T6_MODE[k] for k in ("p", "h", 0, 1, -1, 2, -2, 3, -3)]
+    mk = sum(2 ** (7 - len(c)) for c in modes)
+    keys = sorted(T4_WHITE)
+    ctx.case(("spectab",), True, branch="gen:spec-tables")
+    b.add_raw("spectab", {"spec": "tables"},
+              "%d %d %d %d %d keys-ok prefix-free %s" % (wk, bk, mk, len(keys), sum(keys), " ".join(modes)))
+    lens = sorted(set(RUN_LENGTHS + list(range(0, 70)) + [64 * i for i in range(1, 42)] +
+                      [2560 * k + d for k in range(1, 5) for d in (-1, 0, 1, 63, 64, 65, 127, 128)] +
+                      [rng.randrange(0, 20000) for _ in range(ctx.n(200, 2000))]))
+    for n in lens:
+        for color in (0, 1):
+            code = code_run(n, color)
+            # independent re-reading of the shape: greedy prefix decoding with the frozen table sums to n,
+            # 2560s first, then at most one make-up, then exactly one terminating code
+            inv = {c: v for v, c in RUN_TABLE[color].items()}
+            vals, cur = [], ""
+            for ch in code:
+                cur += ch
+                if cur in inv:
+                    vals.append(inv[cur])
+                    cur = ""
+            k = 0
+            while k < len(vals) - 2 and vals[k] == 2560:
+                k += 1
+            tail = vals[k:]
+            ok = (cur == "" and sum(vals) == n and vals and vals[-1] < 64 and len(tail) <= 2 and
+                  all(v >= 64 and v % 64 == 0 for v in tail[:-1]))
+            ctx.case(("run", color, n), True, branch="run-shape:%s" % ("k>0" if k else ("makeup" if len(tail) == 2 else "term")))
+            if not ok:
+                ctx.disagree("spec.encodeRun shape (Python twin)", {"n": n, "color": color}, "k*2560+m+t", repr(vals))
+            b.add_raw("run %d %d" % (color, n), {"run": n, "color": color}, code)
+    # --- extension codes of the implementation's MODE table vs the regenerated table
+    ext = {}
+    for n in range(1, 9):
+        ext[n] = impl_ext_code(n)
+        ctx.case(("ext", n, ext[n]), True, branch="ext:" + ("present" if ext[n] else "absent"))
+        b.add_raw("ext %d" % n, {"ext": n}, ext[n] or "-")
+    # --- images followed by EOFB + anything / by an extension code; K values
+    widths = [1, 2, 3, 5, 7, 8, 9, 16, 17, 33, 64, 65, 200, 1728, 2561, 2700]
+    for i in range(ctx.n(700, 8000)):
+        w = rng.choice(widths[:10]) if rng.random() < 0.85 else rng.choice(widths)
+        rows = []
+        for _ in range(rng.randint(0, 3)):
+            rows.append(gen_row(rng, w, rows[-1] if rows else None))
+        chs = gen_choices(rng, rows, w)
+        align, rev = rng.random() < 0.5, rng.random() < 0.5
+        route = "func" if rng.random() < 0.8 else rng.choice(["stream", "stream-abbrev"])
+        packed = "ok:" + C.hx(pack(rows, w, rev))
+        _, used = encode_image(rows, w, chs, align, False)
+        # bits of the rows alone (encode_image pads the end; redo without the final padding)
+        bits, ref = "", [1] * w
+        for r, ch in zip(rows, list(chs) + [""] * len(rows)):
+            code, _u = encode_line(ref, r, w, ch)
+            if align and len(code) % 8:
+                code += "0" * (8 - len(code) % 8)
+            bits += code
+            ref = r
+        extra = {"w": w, "rows_str": rows_str(rows), "choices": ",".join(chs)}
+        k = i % 4
+        if k == 0:      # complete encoding with EOFB + trailing bytes (image_rt_trailing)
+            enc, _ = encode_image(rows, w, chs, align, True)
+            trail = bytes(rng.getrandbits(8) for _ in range(rng.randint(1, 6)))
+            if rng.random() < 0.3:      # a second image after the first one's EOFB
+                trail = encode_image([gen_row(rng, w, None)], w, [""], align, True)[0]
+            b.add_expect(enc + trail, -1, w, align, rev, packed,
+                         "data after EOFB changed the result (decoding must stop at EOFB)", "eofb-trailing", route, extra)
+        elif k == 1:    # EOFB not followed by fill: arbitrary bits right after it (eofb_ends_decoding)
+            tail = "".join(rng.choice("01") for _ in range(rng.randint(0, 40)))
+            b.add_expect(bits_to_bytes(bits + T6_MODE["e"] + tail), -1, w, align, rev, packed,
+                         "bits after EOFB changed the result (decoding must stop at EOFB)", "eofb-bits", route, extra)
+        elif k == 2:    # an extension code after the rows (extension_codes_rejected)
+            n = rng.randint(1, 7)
+            if ext.get(n):
+                tail = "".join(rng.choice("01") for _ in range(rng.randint(0, 24)))
+                b.add_expect(bits_to_bytes(bits + ext[n] + tail), -1, w, align, rev, "EXC:InvalidData",
+                             "extension code x%d after valid rows was not rejected with InvalidData" % n,
+                             "ext-code", "func", dict(extra, ext=n))
+        else:           # K other than -1, any Columns (k_not_group4_rejected)
+            K = rng.choice([0, 1, 2, 4, 7, -2, -3, -100, None])
+            cols = rng.choice([w, w, None, 0, -1, 1])
+            data = bits_to_bytes(bits + T6_MODE["e"]) if rng.random() < 0.7 else \
+                bytes(rng.getrandbits(8) for _ in range(rng.randint(0, 8)))
+            b.add_expect(data, K, cols, align, rev, "EXC:PDFValueError",
+                         "K = %r (not Group 4) was not rejected with PDFValueError" % (K,), "k-not-g4", route, extra)
+
+
 def run_corpus(ctx: C.Ctx, b: Batch) -> None:
     for path in sorted(glob.glob(os.path.join(C.VERIF, "corpus", "C19", "*.json"))):
         with open(path) as fp:
@@ -906,7 +1050,12 @@ def run_corpus(ctx: C.Ctx, b: Batch) -> None:
 
 def _replay(ctx: C.Ctx, b: Batch, doc, tag: str) -> None:
     inp = doc.get("input", {})
-    if "rows" in inp:
+    if "r6" in inp:
+        extra = {k: v for k, v in inp.items() if k in ("w", "rows_str", "choices", "ext")}
+        b.add_expect(bytes.fromhex(inp["data"]), inp.get("K", -1), inp.get("Columns"), inp.get("align", False),
+                     inp.get("blackis1", False), inp["expect"], inp.get("what", "round-6 expectation"),
+                     inp["r6"], inp.get("route", "func"), extra)
+    elif "rows" in inp:
         c = Case.from_json(inp)
         c.tag = tag
         b.add_rt(c)
@@ -935,5 +1084,6 @@ def run(ctx: C.Ctx) -> None:
     run_random(ctx, b)
     run_damaged(ctx, b)
     run_stream_params(ctx, b)
+    run_round6(ctx, b)
     run_exhaustive(ctx, b)
     b.flush()
